@@ -101,10 +101,15 @@ class Case:
         return "must" if now - self.t_loss >= self.W else "mustnot"
 
     def inbound_live(self):
-        """An inbound connection that the node has attached to the peer (ready)."""
-        p = self.node.peers[PEER]
-        c = p.connection
-        return c is not None and c.is_receiver and c.ident in self.node.connections
+        """The peer holds an inbound connection: ground truth from the wire - an accepted socket on which a CER of this
+        peer was answered 2001 and which neither side has closed (not the node's own tables)."""
+        for s in self.h.sockets:
+            if s.role != "accepted" or s.closed or s.dead or s.peer is None or s.peer.closed:
+                continue
+            s.peer.drain()
+            if any(f.h.code == 257 and not f.is_request and f.result_code == 2001 for f in s.peer.frames):
+                return True
+        return False
 
     def tick_and_judge(self, dt, label):
         h = self.h
